@@ -408,8 +408,17 @@ def check_compression(ctx) -> None:
     pname = comp.params()[1] if len(comp.params()) > 1 else None
     ok_c = False
     fallback_c = False
+    cdefs = D.definitions(comp.node)
+    ret_values = []
     for r in C.returns_of(comp.node):
         v = r.value
+        if isinstance(v, ast.Name) and v.id != pname and cdefs.get(v.id) and all(d[3] == "assign" and d[1] is not None and not d[2] for d in cdefs[v.id]):
+            # returned through a local: judge each of its definitions where it is made
+            for d in cdefs[v.id]:
+                ret_values.append((d[0], d[1]))
+        else:
+            ret_values.append((r, v))
+    for r, v in ret_values:
         if isinstance(v, ast.Call) and norm(v.func) == "zlib.compress" and v.args:
             inner = v.args[0]
             if isinstance(inner, ast.Call) and isinstance(inner.func, ast.Attribute) and inner.func.attr == "to_bytes" \
